@@ -1027,6 +1027,48 @@ EXTRA_COMPONENTS = ["...", " ", ". ", "a/", "/", "//", "a\\b", "\\", "a\x00b", "
                     "../../../../../../../../x", "..\\..", "a/.", "./a", "a//b", "x" * 300, "\n", "a\n..", "%2e%2e", "C:", "C:\\x"]
 
 
+modelrun.register("rebuild", "parts", "joinparts")
+
+
+def parts_tie(ctx, model_ok):
+    """Model/RebuildRun.v parts_of / join_parts (how a copypath target is read as path parts) vs pathlib / os.path.join"""
+    if not model_ok:
+        return
+    import pathlib
+    rng = random.Random(ctx.rng.getrandbits(64))
+    alpha = ["a", "b", "é", "x y", ".", "..", "", "c.d", "..x", "日本"]
+    strs = ["", ".", "/", "a", "a/", "/a", "a//b", "./a", "a/./b", "a/../b", "/a/b/", "..", "../a", "a/..", "/.", "/..", "a/b/."]
+    for _ in range(300 if ctx.tier == "quick" else 5000):
+        k = rng.randrange(0, 6)
+        s = "/".join(rng.choice(alpha) for _ in range(k))
+        if rng.random() < 0.3:
+            s = "/" + s
+        strs.append(s)
+    strs = [s for s in dict.fromkeys(strs) if not s.startswith("//") or s.startswith("///")]   # POSIX keeps exactly two slashes apart
+    outs = modelrun.run("parts", [(hx(s),) for s in strs])
+    if outs is None:
+        ctx.broken.append("extracted model driver (parts) failed to run")
+        return
+    for s, o in zip(strs, outs):
+        ctx.traces_validated += 1
+        want = hexlist(list(pathlib.PurePosixPath(s).parts))
+        if o != want:
+            ctx.disagree("Model/RebuildRun.v parts_of vs pathlib.PurePosixPath(s).parts", {"string": s}, o, want)
+    dests = [["/", "d"], ["out"], ["/", "tmp", "x y"], []]
+    cases = [(d, s) for d in dests for s in strs[:120]]
+    outs = modelrun.run("joinparts", [(hexlist(d), hx(s)) for d, s in cases])
+    if outs is None:
+        ctx.broken.append("extracted model driver (joinparts) failed to run")
+        return
+    for (d, s), o in zip(cases, outs):
+        ctx.traces_validated += 1
+        dstr = str(pathlib.PurePosixPath(*d)) if d else ""
+        want = hexlist(list(pathlib.PurePosixPath(os.path.join(dstr, s)).parts))
+        if o != want:
+            ctx.disagree("Model/RebuildRun.v join_parts vs Path(os.path.join(dest, full)).parts", {"dest": d, "full": s}, o, want)
+    ctx.case(key=("parts-tie", len(strs)), classes=["path parts tie"])
+
+
 def check_parts_tie(ctx, model_ok, components, lists):
     """Metadata._check_parts vs safe_comp / check_parts_model"""
     core.use_repo_in_process()
